@@ -121,7 +121,15 @@ fn gen(rng: &mut Rng) -> Built {
         let faulty = fault.is_some() && li == fault_line;
         if faulty && fault == Some("data-in-dseg") {
             nodes.push(Node::Seg(Seg::Data));
-            nodes.push(Node::Data { label: None, width: *rng.pick(&[1u8, 2, 4, 8]), ops: vec![DataOp::E(E::lit(1))] });
+            // (also directives that hold nothing: they are in the wrong segment all the same)
+            let (width, ops) = match rng.below(6) {
+                0 => (1u8, vec![DataOp::S(String::new())]),
+                1 => (1, vec![DataOp::S(String::new()), DataOp::S(String::new())]),
+                2 => (*rng.pick(&[1u8, 2, 4, 8]), vec![]),
+                _ => (*rng.pick(&[1u8, 2, 4, 8]), vec![DataOp::E(E::lit(1))]),
+            };
+            let label = if rng.chance(1, 3) { Some(names.fresh("lbl", rng)) } else { None };
+            nodes.push(Node::Data { label, width, ops });
             break;
         }
         if seg == Seg::Eeprom && rng.chance(1, 6) {
